@@ -73,6 +73,17 @@ def upd (f : Nat → Tm) (i : Nat) (v : Tm) : Nat → Tm := fun j => if j = i th
 
 def State.curId (s : State) : Option Nat := s.cur.map (·.1)
 
+/-! atomic state mutations (the primitives below are compositions of these) -/
+def State.setTm (s : State) (x : Nat) (t : Tm) : State := { s with tm := upd s.tm x t }
+def State.push (s : State) (x : Nat) : State := { s with queue := s.queue ++ [x] }
+def State.pop (s : State) (i : Nat) : State := { s with queue := s.queue.eraseIdx i }
+def State.setCur (s : State) (c : Option (Nat × List Act)) : State := { s with cur := c }
+def State.alloc (s : State) : State := { s with nextId := s.nextId + 1 }
+def State.tick (s : State) (d : Nat) : State := { s with now := s.now + d }
+def State.halt (s : State) : State := { s with running := false }
+def State.setScript (s : State) (k : Nat) (acts : List Act) : State :=
+  { s with scripts := fun j => if j = k then acts else s.scripts j }
+
 /-- `After` (`rep = false`: `Obj.Duration = 0`) / `AddTimer` (`rep = true`:
 `Obj.Duration = dur`, which repeats only when `> 0`): allocate the id,
 `doLater(dur)`, `timers.Store`. A non-positive duration fires immediately. -/
@@ -82,25 +93,20 @@ def create (s : State) (dur : Int) (rep : Bool) (script : Nat) (args : List Nat)
   let period := if rep then dur.toNat else 0
   let t : Tm := { live := true, period := period, script := script, args := args, cancelled := false,
                   armed := true, exp := s.now + delay, inMap := true }
-  ({ s with nextId := id, tm := upd s.tm id t }, [.created id s.now delay period args])
+  (s.alloc.setTm id t, [.created id s.now delay period args])
 
 /-- `Cancel`: not in `timers` → nothing; else mark, stop the runtime timer, forget. -/
 def cancelTm (s : State) (id : Nat) : State × List Event :=
-  let t := s.tm id
-  let ev := if t.live then [Event.cancel id s.now] else []
-  if t.inMap then
-    ({ s with tm := upd s.tm id { t with cancelled := true, armed := false, inMap := false } }, ev)
-  else (s, ev)
+  (if (s.tm id).inMap then s.setTm id { s.tm id with cancelled := true, armed := false, inMap := false } else s,
+   if (s.tm id).live then [Event.cancel id s.now] else [])
 
 /-- the `time.AfterFunc` goroutine of `doLater`: not before `exp`; drops the
 object when cancelled or when the manager was stopped, else enqueues it. -/
 def expire (s : State) (id : Nat) : State × List Event :=
-  let t := s.tm id
-  if t.armed && decide (t.exp ≤ s.now) then
-    let s1 := { s with tm := upd s.tm id { t with armed := false } }
-    if t.cancelled then (s1, [])
-    else if !s.running then (s1, [])
-    else ({ s1 with queue := s.queue ++ [id] }, [])
+  if (s.tm id).armed && decide ((s.tm id).exp ≤ s.now) then
+    if (s.tm id).cancelled then (s.setTm id { s.tm id with armed := false }, [])
+    else if !s.running then (s.setTm id { s.tm id with armed := false }, [])
+    else ((s.setTm id { s.tm id with armed := false }).push id, [])
   else (s, [])
 
 /-- consumer: receive queue element `i` (a FIFO channel gives 0; the theorems
@@ -110,32 +116,29 @@ def doNext (s : State) (i : Nat) : State × List Event :=
   match s.queue[i]? with
   | none => (s, [])
   | some id =>
-    let s1 := { s with queue := s.queue.eraseIdx i }
-    let t := s.tm id
-    if t.cancelled then (s1, [])
-    else ({ s1 with cur := some (id, s.scripts t.script) }, [.cb id s.now t.args])
+    if (s.tm id).cancelled then (s.pop i, [])
+    else ((s.pop i).setCur (some (id, s.scripts (s.tm id).script)), [.cb id s.now (s.tm id).args])
 
-/-- second half of `Do`, after the callback returned or its panic was recovered -/
+/-- second half of `Do`, after the callback returned or its panic was recovered
+(`s` is the state with the callback already left) -/
 def finish (s : State) (id : Nat) : State × List Event :=
-  let t := s.tm id
-  if t.cancelled then (s, [])
-  else if t.period > 0 then
-    ({ s with tm := upd s.tm id { t with armed := true, exp := s.now + t.period } }, [.rearm id s.now t.period])
-  else ({ s with tm := upd s.tm id { t with inMap := false } }, [])
+  if (s.tm id).cancelled then (s, [])
+  else if (s.tm id).period > 0 then
+    (s.setTm id { s.tm id with armed := true, exp := s.now + (s.tm id).period }, [.rearm id s.now (s.tm id).period])
+  else (s.setTm id { s.tm id with inMap := false }, [])
 
 def cbStep (s : State) : State × List Event :=
   match s.cur with
   | none => (s, [])
-  | some (id, []) => finish { s with cur := none } id
+  | some (id, []) => finish (s.setCur none) id
   | some (id, a :: rest) =>
-    let s1 := { s with cur := some (id, rest) }
     match a with
-    | .cancelSelf => cancelTm s1 id
-    | .cancel x => cancelTm s1 x
-    | .cancelNewest => cancelTm s1 s1.nextId
-    | .after d k arg => create s1 d false k [arg]
-    | .add d k arg => create s1 d true k [arg]
-    | .panic => ({ s with cur := some (id, []) }, [.panic id])
+    | .cancelSelf => cancelTm (s.setCur (some (id, rest))) id
+    | .cancel x => cancelTm (s.setCur (some (id, rest))) x
+    | .cancelNewest => cancelTm (s.setCur (some (id, rest))) s.nextId
+    | .after d k arg => create (s.setCur (some (id, rest))) d false k [arg]
+    | .add d k arg => create (s.setCur (some (id, rest))) d true k [arg]
+    | .panic => (s.setCur (some (id, [])), [.panic id])
 
 def step (s : State) : Op → State × List Event
   | .after d k args => if s.cur.isSome then (s, []) else create s d false k args
@@ -144,9 +147,9 @@ def step (s : State) : Op → State × List Event
   | .expire id => expire s id
   | .doNext i => doNext s i
   | .cbStep => cbStep s
-  | .advance d => ({ s with now := s.now + d }, [])
-  | .stop => ({ s with running := false }, [])
-  | .defScript k acts => ({ s with scripts := fun j => if j = k then acts else s.scripts j }, [])
+  | .advance d => (s.tick d, [])
+  | .stop => (s.halt, [])
+  | .defScript k acts => (s.setScript k acts, [])
 
 /-- run a history from `s`, appending the events to `tr` (chronological order) -/
 def runFrom (s : State) (tr : List Event) : List Op → State × List Event
